@@ -2016,7 +2016,7 @@ class NameCheckVisitor(node_visitor.ReplacingNodeVisitor):
             # the self argument of nested methods with an unannotated
             # first argument is incorrectly inferred.
             enclosing_class=(
-                TypedValue(self.current_class)
+                self._value_of_enclosing_class(self.current_class)
                 if self.current_class is not None and self._is_checking()
                 else None
             ),
@@ -2243,6 +2243,15 @@ class NameCheckVisitor(node_visitor.ReplacingNodeVisitor):
         if sig is None or sig.has_return_value():
             return
         self._argspec_to_retval[id(sig)] = (return_value, sig)
+
+    def _value_of_enclosing_class(self, cls: type) -> TypedValue:
+        """The type of an unannotated self: the class, parameterized by its own
+        type parameters if it is generic (the same value the runtime signature
+        gives to the self parameter, see ArgSpecCache._get_type_for_parameter)."""
+        generic_bases = self.arg_spec_cache._get_generic_bases_cached(cls)
+        if generic_bases and generic_bases.get(cls):
+            return GenericValue(cls, generic_bases[cls].values())
+        return TypedValue(cls)
 
     def _get_potential_function(self, node: FunctionDefNode) -> Optional[object]:
         scope_type = self.scopes.scope_type()
